@@ -400,7 +400,7 @@ mod serialization {
             let dimensions = if version == Version::V1 as u64 {
                 (0..de.read_leb128_u64()?)
                     .map(|_| {
-                        let name = String::from_utf8(de.read_vec()?)
+                        let name = String::from_utf8(crate::bytes_ser_de::read_vec(de)?)
                             .map_err(|e| Error::ConversionFailed(e.to_string()))?;
                         let dimension = de.read::<Dimension>()?;
                         Ok((name, dimension))
